@@ -5,7 +5,6 @@ Import ListNotations.
 Open Scope string_scope.
 
 Definition hfrom := hourly_from_doc hourly_float_paths.
-Definition hfrom_rep := hourly_from_doc_repaired hourly_float_paths.
 
 Definition ojson_eqb (a b : option json) : bool :=
   match a, b with Some x, Some y => json_eqb x y | None, None => true | _, _ => false end.
@@ -23,8 +22,7 @@ Definition check_hreload (cs : json * option hourly_state * option json) : bool 
   match s2 with
   | None => match hfrom d with None => true | Some _ => false end
   | Some s2 =>
-      (* either reader: the code as it is, or with the proposed repair of the null edge-bin map *)
-      match (match hfrom d with Some s' => Some s' | None => hfrom_rep d end) with
+      match hfrom d with
       | Some s' => hstate_eqb s' s2 && ojson_eqb (hourly_to_doc s') redump
       | None => false
       end
